@@ -153,7 +153,9 @@ class Prop(PropBase):
             try:
                 if op[0] == "fs":
                     y = z[:, slice(*op[1:])]
-                    same_time = (len(y) == len(z) and y.start_time == z.start_time and y.start_time.scale == z.start_time.scale and y.sample_rate == z.sample_rate)
+                    # (adding zero seconds to a UTC time goes through TAI and back in astropy: the start may move by ~1e-13 s)
+                    same_time = (len(y) == len(z) and abs((y.start_time - z.start_time).to_value(u.s)) < 1e-12
+                                 and y.start_time.scale == z.start_time.scale and y.sample_rate == z.sample_rate)
                 elif op[0] == "tfs":
                     y = z[slice(*op[1]), slice(*op[2])]
                     yt = z[slice(*op[1])]
@@ -161,7 +163,8 @@ class Prop(PropBase):
                                  and y.sample_rate == yt.sample_rate)
                 elif op[0] == "stokes":
                     y = z[op[1]]
-                    same_time = (len(y) == len(z) and y.start_time == z.start_time and y.start_time.scale == z.start_time.scale and y.sample_rate == z.sample_rate
+                    same_time = (len(y) == len(z) and abs((y.start_time - z.start_time).to_value(u.s)) < 1e-12
+                                 and y.start_time.scale == z.start_time.scale and y.sample_rate == z.sample_rate
                                  and type(y).__name__ == "IntensitySignal"
                                  and bool(self.np.array_equal(self.np.asarray(y.data),
                                                               self.np.asarray(z.data)[:, :, "IQUV".index(op[1])])))
